@@ -56,14 +56,14 @@ Proof.
   apply filter_In in Hx as [Hx _]. rewrite forallb_forall in Hn. apply Hn, Hx.
 Qed.
 
-Lemma add_scrub_plain tm sc ss t : forallb plain ss = true -> forallb plain (fst (add_scrub_fields tm sc ss t)) = true.
+Lemma add_scrub_plain tm sc ss t fr : forallb plain ss = true -> forallb plain (fst (add_scrub_fields tm sc ss t fr)) = true.
 Proof.
   intros H. unfold add_scrub_fields.
   destruct ((match kind_of sc t with KOther => false | _ => true end) && negb (has_direct ss "__typename")).
   - match goal with |- context [if negb ?b then _ else _] => destruct (negb b) end; cbn [fst forallb plain Sanitize.typename_helper andb]; [exact H|].
-    destruct (contains (Sanitize.typename_helper :: ss) "id"); cbn [fst forallb plain Sanitize.typename_helper id_helper andb]; exact H.
+    match goal with |- context [if ?c then (?x, ?y) else _] => destruct c end; cbn [fst forallb plain Sanitize.typename_helper id_helper andb]; exact H.
   - match goal with |- context [if negb ?b then _ else _] => destruct (negb b) end; cbn [fst]; [exact H|].
-    destruct (contains ss "id"); cbn [fst forallb plain id_helper andb]; exact H.
+    match goal with |- context [if ?c then (?x, ?y) else _] => destruct c end; cbn [fst forallb plain id_helper andb]; exact H.
 Qed.
 
 (* the sanitizer keeps a fragment-free selection fragment-free, at every depth *)
@@ -85,8 +85,8 @@ Proof.
           destruct acc as [res0 scr0]. apply H1; assumption. }
         apply G; [exact IH|exact Hsub|reflexivity]. }
       destruct (sanitize tm sc (y :: sub') (ip ++ [a])) as [child sf]. cbn [fst] in Hchild.
-      pose proof (add_scrub_plain tm sc child ty Hchild) as Hc'.
-      destruct (add_scrub_fields tm sc child ty) as [child' added]. cbn [fst] in *.
+      pose proof (add_scrub_plain tm sc child ty false Hchild) as Hc'.
+      destruct (add_scrub_fields tm sc child ty false) as [child' added]. cbn [fst] in *.
       apply add_to_result_plain; [exact Hr|]. cbn [forallb]. rewrite andb_true_r.
       destruct child' as [|z child'']; [reflexivity|]. rewrite plain_field, Hroot, Hc'. reflexivity.
   - cbn in Hp. discriminate.
